@@ -418,6 +418,15 @@ func ambientUseOK(p *core.Program, v ssa.Value) (bool, string) {
 					why = "flows into " + core.CalleeName(cm) + " at " + p.Pos(u.Pos())
 				}
 			case *ssa.Defer, *ssa.Go:
+			case *ssa.MakeClosure:
+				// captured by a closure (a tx.Defer callback): follow the captured variable inside it
+				if fn, isFn := x.Fn.(*ssa.Function); isFn {
+					for i, bnd := range x.Bindings {
+						if bnd == v && i < len(fn.FreeVars) {
+							visit(fn.FreeVars[i], depth+1)
+						}
+					}
+				}
 			case *ssa.Phi, *ssa.Convert, *ssa.ChangeType, *ssa.MakeInterface, *ssa.ChangeInterface, *ssa.Extract, *ssa.UnOp, *ssa.BinOp, *ssa.Field, *ssa.FieldAddr, *ssa.Slice, *ssa.IndexAddr, *ssa.TypeAssert:
 				visit(x.(ssa.Value), depth+1)
 			case *ssa.Store:
